@@ -171,8 +171,7 @@ func (fr *forkRun) violation(class, msg string) {
 	fr.st.violations++
 	w := *fr.cs
 	w.What = msg
-	fr.c.Stat("violations "+class, 1)
-	fr.c.Violation(class, msg, &w)
+	report(fr.c, class, msg, &w)
 }
 
 // apply executes one event on the subject and runs the oracle.
